@@ -6,6 +6,7 @@ mod e2;
 mod e3;
 mod e5;
 mod e6;
+mod e7;
 mod linemodel;
 
 use common::*;
@@ -31,8 +32,99 @@ fn plan_for(prop: &str) -> Option<Plan> {
         "C12" | "C13" | "C14" => Plan { engine: "sockets", quick_runs: 200_000, thorough_runs: 20_000_000, sweep_every: 0, note: "UDP/Unix datagram sockets are in-memory stubs (ledger + injectable result per send); the real kernel socket is not exercised" },
         "C18" => Plan { engine: "holder", quick_runs: 300_000, thorough_runs: 30_000_000, sweep_every: 0, note: "the simulated execution is sequentially consistent; the memory-ordering half of the property is decided by a vector-clock happens-before tracker fed with the orderings written in the source (release sequences, acquire loads/RMWs, failed-CAS orderings, spawn/join edges)" },
         "C03" => Plan { engine: "sinkfault", quick_runs: 150_000, thorough_runs: 10_000_000, sweep_every: 10, note: "the client's sink is scripted; the text of the line is not compared with a formatter model (that is C01/C04), only 'what was returned is what was emitted'" },
+        "C17" => Plan { engine: "macroproc", quick_runs: 3_000, thorough_runs: 300_000, sweep_every: 0, note: "claimed narrowly: the history dimension (unset / set / second set, failing sink) is simulated with one fresh process per case; argument forms come from a compiled-in matrix of 22 macro/value-type combinations x 0..3 tags, not from all expressible token sequences" },
         _ => return None,
     })
+}
+
+/// C20 (claimed partially): every engine is built with overflow checks and debug assertions, wraps
+/// each API call and each task root in catch_unwind, and labels an un-injected panic with C20.
+/// This check runs all engines with the hostile-value focus and reports only those clauses.
+fn check_c20(tier: Tier, seed: u64, get: &dyn Fn(&str) -> Option<String>, has: &dyn Fn(&str) -> bool) -> i32 {
+    let t0 = std::time::Instant::now();
+    let scale: f64 = get("--scale").and_then(|s| s.parse().ok()).unwrap_or(1.0);
+    let jobs = get("--jobs").and_then(|s| s.parse().ok()).unwrap_or_else(|| std::thread::available_parallelism().map(|n| n.get()).unwrap_or(4));
+    let mk = |runs_q: u64, runs_t: u64, sweep: u64| BatchArgs {
+        prop: "C20".to_string(),
+        tier,
+        seed,
+        runs: ((if tier == Tier::Quick { runs_q } else { runs_t }) as f64 * scale) as u64,
+        jobs,
+        sweep_every: sweep,
+        level_note: String::new(),
+        write_evidence: false,
+        extra: None,
+        max_wall_s: if tier == Tier::Quick { 60 } else { 900 },
+    };
+    let parts: Vec<(&str, (i32, serde_json::Value))> = vec![
+        ("sinkfault", run_batch_ev::<e1::E1>(&mk(60_000, 3_000_000, 20))),
+        ("linebuf", run_batch_ev::<e2::E2>(&mk(200_000, 10_000_000, 20))),
+        ("queue", run_batch_ev::<e3::E3>(&mk(60_000, 3_000_000, 0))),
+        ("sockets", run_batch_ev::<e5::E5>(&mk(40_000, 2_000_000, 0))),
+        ("holder", run_batch_ev::<e6::E6>(&mk(20_000, 1_000_000, 0))),
+        ("macroproc", run_batch_ev::<e7::E7>(&mk(600, 30_000, 0))),
+    ];
+    let mut exit = 0;
+    let mut evaluations = 0u64;
+    let mut nontrivial = 0u64;
+    let mut samples = Vec::new();
+    let mut per_engine = serde_json::Map::new();
+    let mut violations = 0u64;
+    for (name, (code, ev)) in &parts {
+        if *code == 1 {
+            exit = 1;
+        } else if *code != 0 && exit == 0 {
+            exit = 2;
+        }
+        let c = &ev["coverage"];
+        evaluations += c["evaluations"].as_u64().unwrap_or(0);
+        nontrivial += c["distinct_nontrivial"].as_u64().unwrap_or(0);
+        violations += ev["violations"].as_u64().unwrap_or(0);
+        if let Some(s) = c["samples"].as_array().and_then(|a| a.first()) {
+            samples.push(serde_json::json!({"engine": name, "case": s}));
+        }
+        per_engine.insert(
+            name.to_string(),
+            serde_json::json!({
+                "evaluations": c["evaluations"], "distinct_nontrivial": c["distinct_nontrivial"], "api_calls": c["api_calls"],
+                "simulated_steps": c["simulated_steps"], "distinct_schedules": c["distinct_schedules"], "faults_fired": c["faults_fired"],
+                "probes": c["probes"], "real_vs_stub": c["real_vs_stub"], "harness_errors": c["harness_errors"], "replays": c["replays"],
+            }),
+        );
+    }
+    let wall = t0.elapsed().as_secs_f64();
+    let ev = serde_json::json!({
+        "property_id": "C20",
+        "tier": tier.name(),
+        "seed": seed,
+        "level": "exploration",
+        "coverage": {
+            "evaluations": evaluations,
+            "distinct_nontrivial": nontrivial,
+            "rule": "sum over the six engines of their own distinct non-trivial cases (each engine's rule is in its own evidence file); every engine is built with -C overflow-checks=on -C debug-assertions=on, wraps each public API call and each simulated task root in catch_unwind and reports any panic it did not inject itself; generators include capacity 0/1/exact-fit buffers, queue capacity 0/1, empty / long / non-ASCII / delimiter-laden strings, NaN, +-inf, -0.0, i64::MIN, u64::MAX, Duration::MAX, empty and 3000-element packed lists",
+            "samples": samples,
+            "per_engine": per_engine,
+            "what_is_decided_by_simulation": "the history- and fault-dependent part: capacity - written never underflowing after failed flushes, lock().unwrap() after a panic elsewhere, counters not underflowing under any interleaving, unwinding through the worker",
+            "what_is_merely_exercised": "the pure-argument part (size-hint arithmetic, casts, formatting of extreme values): input generation riding on the harnesses, not simulation",
+            "runs_per_hour": (evaluations as f64 / wall * 3600.0).round(),
+        },
+        "assumptions": [
+            "claimed partially (DESIGN.md section 5.8): huge capacities and allocation failure are outside every generator; abort-on-double-panic inside a child process is reported as a harness error, not silently passed",
+            "sampling, not proof",
+        ],
+        "wall_s": wall,
+        "violations": violations,
+    });
+    if !has("--no-evidence") {
+        if let Err(e) = write_evidence_file("C20", &ev) {
+            eprintln!("HARNESS-ERROR: {e}");
+            if exit == 0 {
+                exit = 2;
+            }
+        }
+    }
+    println!("{} C20 [{}] engines=6 runs={} violations={} wall={:.1}s", if exit == 0 { "PASS" } else if exit == 1 { "FAIL" } else { "ERROR" }, tier.name(), evaluations, violations, wall);
+    exit
 }
 
 /// C18 second opinion (thorough tier): the unhooked SingletonHolder under Miri's seeded scheduler,
@@ -90,6 +182,9 @@ fn main() {
                 .or_else(|| std::env::var("VERIF_SEED").ok())
                 .and_then(|s| s.parse::<u64>().ok())
                 .unwrap_or(DEFAULT_SEED);
+            if prop == "C20" {
+                std::process::exit(check_c20(tier, seed, &get, &has));
+            }
             let plan = match plan_for(&prop) {
                 Some(p) => p,
                 None => {
@@ -117,6 +212,7 @@ fn main() {
                 "queue" => run_batch::<e3::E3>(&ba),
                 "sockets" => run_batch::<e5::E5>(&ba),
                 "holder" => run_batch::<e6::E6>(&ba),
+                "macroproc" => run_batch::<e7::E7>(&ba),
                 _ => 2,
             }
         }
@@ -143,11 +239,24 @@ fn main() {
                 "queue" => replay::<e3::E3>(&rf, quiet),
                 "sockets" => replay::<e5::E5>(&rf, quiet),
                 "holder" => replay::<e6::E6>(&rf, quiet),
+                "macroproc" => replay::<e7::E7>(&rf, quiet),
                 other => {
                     eprintln!("HARNESS-ERROR: unknown engine {other}");
                     2
                 }
             }
+        }
+        "macro-child" => {
+            let case: e7::McCase = match args.get(1).and_then(|a| serde_json::from_str(a).ok()) {
+                Some(c) => c,
+                None => {
+                    eprintln!("HARNESS-ERROR: macro-child needs a case as JSON");
+                    std::process::exit(2);
+                }
+            };
+            let rep = e7::child_run(&case);
+            println!("CHILD-REPORT {}", serde_json::to_string(&rep).unwrap());
+            0
         }
         "selftest" => {
             let seeds = get("--seeds").and_then(|s| s.parse().ok()).unwrap_or(500);
@@ -161,6 +270,7 @@ fn main() {
                 ("sockets/C14", selftest::<e5::E5>("C14", seeds, 16, DEFAULT_SEED)),
                 ("holder/C18", selftest::<e6::E6>("C18", seeds, 16, DEFAULT_SEED)),
                 ("sinkfault/C03", selftest::<e1::E1>("C03", seeds, 16, DEFAULT_SEED)),
+                ("macroproc/C17", selftest::<e7::E7>("C17", seeds.min(200), 16, DEFAULT_SEED)),
             ] {
                 match r {
                     Ok(n) => println!("selftest {name}: {n} seeds x 2 executions identical"),
